@@ -13,12 +13,17 @@ RULE = ("random models: mass action of order 0-4 with repeats (named and numeric
 TRUSTED = ["libsbml's XML round trip and L3 formula printer/parser are outside the model", "hand model coq/Model/SbmlExport.v (annotation protocol) tied by correspondence with the written annotation strings"]
 ASSUMPTIONS = ["reactions are created through the documented tuple without an explicit 'species' override", "rate comparison tolerance 1e-9 relative"]
 
+LOWER_POOL = ["m", "v", "u", "me", "vol", "met", "um", "p", "g", "mrna", "lum"]
+
 def gen_cases(seed, tier):
     rng = random.Random(seed * 6007 + 12); n = 100 if tier == "quick" else 1200
     cases = []
     for _ in range(n):
         spec = G.gen_network(rng, kinds=("massaction", "massaction") + tuple(G.HILL) + ("general",), nrx=(1, 4), nsp=(1, 4), max_order=4, allow_delay=rng.random() < 0.6,
-                             general_pool=["kg*%s", "kg*%s*%s", "kg*%s/(1+%s)", "kg*%s^2/(Kg+%s^2)"])
+                             general_pool=["kg*%s", "kg*%s*%s", "kg*%s/(1+%s)", "kg*%s^2/(Kg+%s^2)"],
+                             # a third of the models use short lower-case species names, as gene / mRNA / protein models do (seeded change
+                             # S4_C12: the import's reserved-word test became a substring test, dropping species called m, vol, me, ...)
+                             species_pool=(LOWER_POOL if rng.random() < 0.35 else None))
         spec["species"] = list(spec["x0"].keys())
         rules = []
         sp = list(spec["x0"].keys())
@@ -139,7 +144,8 @@ def key(case): return json.dumps(case["spec"], sort_keys=True)
 def stats(cases):
     from collections import Counter
     return {"kinds": dict(Counter(rx["type"] for c in cases for rx in c["spec"]["reactions"])), "with_delay": sum(1 for c in cases for rx in c["spec"]["reactions"] if "delay" in rx),
-            "rule_frequencies": dict(Counter(str(r[2]) for c in cases for r in c["spec"]["rules"]))}
+            "rule_frequencies": dict(Counter(str(r[2]) for c in cases for r in c["spec"]["rules"])),
+            "models_with_lower_case_species_names": sum(1 for c in cases if any(s_.islower() for s_ in c["spec"]["x0"]))}
 def shrink(case, fails):
     from harness.shrink import shrink_list
     spec = case["spec"]
